@@ -27,6 +27,9 @@ def mc_jobs(ctx):
         # aliases, responses, reload, containers
         ("aliases", {"DeclSet": "{2, 3, 4}", "MaxSteps": 3 if q else 4, "MaxDefs": 1,
                      "Acts": acts("define", "del", "push", "clear", "reload", "call", "out")}, inv, prop, None),
+        # file contents whose top level fails after the definitions: nothing of them stays registered, the names are free
+        ("failing", {"DeclSet": "{1, 18}", "Ctx": '{"c1", "c2"}', "Name": '{"f"}', "MaxGen": 3, "MaxSteps": 3, "MaxDefs": 1 if q else 2,
+                     "Acts": acts("reload", "fail", "define", "close", "call")}, inv, prop, None),
         # three contexts (file, app, session)
         ("three", {"DeclSet": "{1}", "Ctx": '{"c1", "c2", "c3"}', "Name": '{"f"}', "MaxSteps": 5 if q else 6,
                    "Acts": acts("define", "del", "close", "call", "unload")}, inv, prop, None),
@@ -35,7 +38,11 @@ def mc_jobs(ctx):
     ]
     if not q:
         jobs.append(("boot", {"DeclSet": "{1, 15}", "Ctx": '{"c1", "c2"}', "StartedSet": "{FALSE}", "MaxDefs": 2, "MaxSteps": 3,
-                              "Acts": acts("boot", "reload", "define", "del", "call")}, inv, prop, None))
+                              "Acts": acts("boot", "reload", "fail", "define", "del", "call")}, inv, prop, None))
+        # services of a module: imported at run time / at load time, importer reloaded, module file removed
+        jobs.append(("modules", {"DeclSet": "{2, 18}", "Ctx": '{"c1", "c2", "c4"}', "Name": '{"f"}', "Vias": '{"exec", "run"}', "MaxGen": 4,
+                                 "MaxSteps": 4, "Acts": acts("import", "fail", "reload", "close", "define", "del", "call", "unload")},
+                     inv, prop, None))
     jobs += [
         ("flag:service-handler-not-repointed", {"FlagSets": '{{"service-handler-not-repointed"}}', "DeclSet": "{1}", "MaxSteps": 3,
                                                 "Acts": acts("define", "del", "call")}, inv, prop,
@@ -53,6 +60,12 @@ def mc_jobs(ctx):
     ]
     for w in ("W_NoTwoDeclarers", "W_NoRefusal"):
         jobs.append((w, {"DeclSet": "{1}", "Ctx": '{"c1", "c2"}', "MaxSteps": 3, "Acts": acts("define", "del")}, [w], [], {w}))
+    # the new parts are reachable: a name spelled with an upper-case letter redeclared; a service of a module whose importer
+    # was reloaded; a failed load after a @service
+    jobs.append(("W_NoMixedCaseRedeclared", {"DeclSet": "{17}", "Name": '{"f"}', "MaxSteps": 2, "Acts": acts("define")},
+                 ["W_NoMixedCaseRedeclared"], [], {"W_NoMixedCaseRedeclared"}))
+    jobs.append(("W_NoFailedLoad", {"DeclSet": "{18}", "Name": '{"f"}', "MaxSteps": 1, "Acts": acts("reload", "fail")},
+                 ["W_NoFailedLoad"], [], {"W_NoFailedLoad"}))
     return jobs
 
 
